@@ -85,6 +85,25 @@ CHECKS = {
             "Miri: Tree Borrows; ASan: detect_leaks=0 (the arena is freed with the heap)",
         ],
     },
+    "C14": {
+        "engines": NATIVE,
+        "level": "exploration",
+        "rule": "self-contained programs (one construct per program: statement snippets, holder programs for every container kind, "
+                "failing programs that end in an uncaught error at 21 nesting kinds inside a function and at the script top level, "
+                "top-level control flow leaving block scopes, a slice of the atom matrix, and the composed corpus) are each run 8 times "
+                "on ONE interpreter; after every run the host calls collect() and reads gc_stats().live_objects. A program is "
+                "non-trivial when all 8 runs terminated within the step budget; programs are distinct by construction",
+        "floor": {"quick": 2000, "thorough": 10000},
+        "unit_timeout": {"default": 900},
+        "technique": "runtime monitoring: conservation oracle on the live-object count after collect() over repeated runs on one "
+                     "interpreter, with the H4 quiescence summary naming what grew",
+        "level_text": "For every program the series of live-object counts after collection must be constant from the third "
+                      "repetition on; a growing series is a leak attributed to that program (and, through H4, to env_guards / "
+                      "call_stack / wait graph / module table growth).",
+        "level_note": "the first two repetitions may legitimately intern strings or instantiate internal modules; programs that "
+                      "exceed the step budget are inconclusive",
+        "assumptions": ["gc_stats().live_objects after an explicit collect() counts exactly the reachable objects (established by C13)"],
+    },
     "C15": {
         "engines": NATIVE,
         "level": "exploration",
